@@ -41,7 +41,7 @@ PROPS = {
         "level": "other",
         "lean": ["PasfmtModel.Props.C03"],
         "streams": [
-            {"stream": "fmt", "families": "seeds_sample,grammar,layout,regions,mlsfam,marked", "quick": 3000, "thorough": 50000,
+            {"stream": "fmt", "families": "seeds_sample,grammar,layout,regions,mlsfam,marked,boundary,boundary", "quick": 3200, "thorough": 50000,
              "binding": ["prec", "out", "*"], "args": {"oracles": "c03"}},
         ],
         "oracle_prefixes": ["c03", "glue"],
@@ -85,7 +85,7 @@ PROPS = {
         "level": "other",
         "lean": ["PasfmtModel.Props.C11"],
         "streams": [
-            {"stream": "fmt", "families": "seeds_sample,grammar,layout,marked", "quick": 2500, "thorough": 40000, "binding": ["out", "*"], "args": {"oracles": "c11"}},
+            {"stream": "fmt", "families": "seeds_sample,grammar,layout,marked,boundary", "quick": 3000, "thorough": 40000, "binding": ["out", "*"], "args": {"oracles": "c11"}},
         ],
         "oracle_prefixes": ["c11", "glue"],
         "abnormal_binding": False,
